@@ -31,7 +31,7 @@ static Bytes telWire(const Tel& t) {
   if (t.nakM) b = cat(cat(b, ref::wirePart(t.master, (t.nakM == 1 || t.nakM == 4) ? 0x01 : 0)), Bytes{ref::NAK});
   if (t.nakM == 3) b = cat(cat(b, ref::wirePart(t.master)), Bytes{ref::NAK});
   if (t.nakM == 4) {  // the repetition comes with a NON-master source (CRC correct for the repeated bytes): never a message
-    Bytes m2 = t.master; m2[0] = 0x01;
+    Bytes m2 = t.master; m2[0] = 0x04;  // 04 is not one of the 25 masters (0x01 would be)
     b = cat(b, ref::wirePart(m2));
   } else {
     b = cat(b, ref::wirePart(t.master));
